@@ -50,3 +50,11 @@ reg("C16", "names")
 reg("C09", "plumb")
 reg("C04", "plumb")
 reg("C14", "plumb", configs=("utf16",))
+
+# C10 case-insensitive relation; C11 property escapes
+reg("C10", "tables", fn="check_wellformed")
+reg("C10", "tables", fn="check_mode")
+reg("C10", "tables", fn="check_identities")
+reg("C11", "tables", fn="check_wellformed")
+reg("C11", "tables", fn="check_identities")
+reg("C11", "tables", fn="check_wiring")
